@@ -408,6 +408,13 @@ Definition canon (m : msg) : msg :=
         (write_subset (m_isreq m) (m_hdrs m))
         (negb (m_te m) && (m_cl m =? 0))%bool (m_body m) (canon_trailers (m_trailers m)).
 
+(* the RFC 7230 shaped writer: head, then the body in the announced framing
+   (a chunked body always ends with the trailer section and its blank line) *)
+Definition trailer_list (m : msg) : list hdr :=
+  match m_trailers m with Some t => t | None => [] end.
+Definition serialize_spec (m : msg) : bytes :=
+  head_bytes m ++ (if m_te m then chunk_enc (m_body m) (trailer_list m) else m_body m).
+
 Definition parse_spec (isreq : bool) (s : bytes) : option msg :=
   match split_crlf s with
   | None => None
@@ -580,7 +587,8 @@ Definition run_logger_legacy := run_logger_gen true.
 
 Record obs := mkObs {
   ob_after : msg;                      (* the message after the logger ran *)
-  ob_fwd_same : bool;                  (* Write() bytes + trailers equal those of the unlogged twin *)
+  ob_fwd_same : bool;                  (* Write() outcome (bytes, error) equals that of the unlogged twin,
+                                          and the announced-only trailer keys are unchanged *)
   ob_sections : option (bytes * bytes * bytes * bytes);
                                        (* HeaderReader, BodyReader, TrailerReader, Reader contents *)
   ob_reparse : option (option msg);    (* full snapshots only: http.Read*(Reader()) *)
@@ -628,6 +636,29 @@ Definition c15_ok (skip : bool) (m : msg) (o : obs) : bool :=
   forwarded_ok m o && sections_ok o && reparse_ok m o && skip_ok skip o
   && (negb (ob_err o) || ob_src_failed o)
   && startline_ok o.
+
+(* the view a logger builds of the message, if it builds one *)
+Definition logger_view (lg : logger) (skip : bool) (m : msg) : option view :=
+  match lg with
+  | LSnap o => Some (fst (snapshot o m))
+  | LHar c =>
+      if skip then None
+      else if (capture_on c m
+               && (if m_isreq m then negb ((m_cl m <=? 0) && negb (m_te m)) else true))%bool
+           then Some (fst (snapshot default_opts m)) else None
+  | LMarbl => None
+  | LText ho _ => if skip then None else Some (fst (snapshot (mkOpts ho []) m))
+  end.
+
+(* a history of exchanges through one logger: messages left behind, log *)
+Fixpoint run_many (lg : logger) (xs : list (bool * msg)) : list msg * list record :=
+  match xs with
+  | [] => ([], [])
+  | (skip, m) :: xs' =>
+      let '(m', r) := run_logger lg skip m in
+      let '(ms, rs) := run_many lg xs' in
+      (m' :: ms, r ++ rs)
+  end.
 
 (* does the logger read the body itself (and so meets, and reports, a failing
    body source)?  marbl only wraps it. *)
